@@ -129,9 +129,9 @@ package ledger
 //@   ensures items_same() && keyed(ledger.cachedItems)                                                     [C18]
 //@   ensures forall k :: has(ledger.cachedItems.updatedItems, k) == old(has(ledger.cachedItems.updatedItems, k)) && ledger.cachedItems.updatedItems[k] == old(ledger.cachedItems.updatedItems[k])   [C18]
 //@   ensures forall k :: k != key ==> has(ledger.cachedItems.gotItems, k) == old(has(ledger.cachedItems.gotItems, k)) && ledger.cachedItems.gotItems[k] == old(ledger.cachedItems.gotItems[k])   [C18]
-//@   ensures old(has(ledger.cachedItems.updatedItems, key)) && old(upd_in_got(ledger.cachedItems)) ==> result1 == nil && result0 == old(ledger.cachedItems.updatedItems[key])   [C18]
+//@   ensures old(has(ledger.cachedItems.updatedItems, key)) ==> result1 == nil && result0 == old(ledger.cachedItems.updatedItems[key])   [C18]
 //@   ensures !old(has(ledger.cachedItems.updatedItems, key)) && in_removed(ledger.cachedItems, key) ==> result1 == xerrors.ErrNotFoundResult && result0 == nil   [C18]
-//@   ensures !in_removed(ledger.cachedItems, key) && old(has(ledger.cachedItems.gotItems, key)) ==> result1 == nil && result0 == old(ledger.cachedItems.gotItems[key])   [C18]
+//@   ensures !old(has(ledger.cachedItems.updatedItems, key)) && !in_removed(ledger.cachedItems, key) && old(has(ledger.cachedItems.gotItems, key)) ==> result1 == nil && result0 == old(ledger.cachedItems.gotItems[key])   [C18]
 //@   ensures !in_removed(ledger.cachedItems, key) && !old(has(ledger.cachedItems.gotItems, key)) && result1 == nil ==>
 //@           fresh(result0) && itemenc[result0] == treeval[ledger.tree][bytesof(key)] && treehas[ledger.tree][bytesof(key)] &&
 //@           has(ledger.cachedItems.gotItems, key) && ledger.cachedItems.gotItems[key] == result0           [C18]
@@ -150,6 +150,7 @@ package ledger
 //@   ensures has(ledger.cachedItems.updatedItems, itemkey[item]) && ledger.cachedItems.updatedItems[itemkey[item]] == item   [C18]
 //@   ensures has(ledger.cachedItems.gotItems, itemkey[item]) && ledger.cachedItems.gotItems[itemkey[item]] == item           [C18]
 //@   ensures others_same(ledger.cachedItems, itemkey[item])                                                 [C18]
+//@   ensures old(keyed(ledger.cachedItems)) ==> keyed(ledger.cachedItems)                                   [C18]
 
 //@ func (ledger *SimpleLedger[T]) CancelSet(key)
 //@   nopanic
@@ -157,13 +158,14 @@ package ledger
 //@   modifies mapof(ledger.cachedItems.gotItems), mapof(ledger.cachedItems.updatedItems)
 //@   ensures result == nil && !has(ledger.cachedItems.updatedItems, key) && !has(ledger.cachedItems.gotItems, key)   [C18]
 //@   ensures others_same(ledger.cachedItems, key)                                                           [C18]
+//@   ensures old(keyed(ledger.cachedItems)) ==> keyed(ledger.cachedItems)                                   [C18]
 
 //@ func (ledger *SimpleLedger[T]) del(key)
 //@   nopanic
 //@   requires wf_simple(ledger) && keyed(ledger.cachedItems)
 //@   modifies mapof(ledger.cachedItems.gotItems), mapof(ledger.cachedItems.updatedItems), ledger.cachedItems.removedKeys, elems(ledger.cachedItems.removedKeys), itemkey, itemenc
 //@   allocates LedgerKeyList
-//@   ensures items_same() && others_same(ledger.cachedItems, key)                                           [C18]
+//@   ensures items_same() && others_same(ledger.cachedItems, key) && keyed(ledger.cachedItems)             [C18]
 //@   ensures arr(ledger.cachedItems.removedKeys) == old(arr(ledger.cachedItems.removedKeys)) || fresh(ledger.cachedItems.removedKeys)   [C18]
 //@   ensures result1 == nil ==> result0 != nil && !has(ledger.cachedItems.gotItems, key) && !has(ledger.cachedItems.updatedItems, key) && in_removed(ledger.cachedItems, key)   [C18]
 //@   ensures result1 == nil ==> len(ledger.cachedItems.removedKeys) == old(len(ledger.cachedItems.removedKeys)) + 1 &&
@@ -196,9 +198,9 @@ package ledger
 //@   ensures items_same() && keyed(ledger.finalityItems)                                                   [C18]
 //@   ensures forall k :: has(ledger.finalityItems.updatedItems, k) == old(has(ledger.finalityItems.updatedItems, k)) && ledger.finalityItems.updatedItems[k] == old(ledger.finalityItems.updatedItems[k])   [C18]
 //@   ensures forall k :: k != key ==> has(ledger.finalityItems.gotItems, k) == old(has(ledger.finalityItems.gotItems, k)) && ledger.finalityItems.gotItems[k] == old(ledger.finalityItems.gotItems[k])   [C18]
-//@   ensures old(has(ledger.finalityItems.updatedItems, key)) && old(upd_in_got(ledger.finalityItems)) ==> result1 == nil && result0 == old(ledger.finalityItems.updatedItems[key])   [C18]
+//@   ensures old(has(ledger.finalityItems.updatedItems, key)) ==> result1 == nil && result0 == old(ledger.finalityItems.updatedItems[key])   [C18]
 //@   ensures !old(has(ledger.finalityItems.updatedItems, key)) && in_removed(ledger.finalityItems, key) ==> result1 == xerrors.ErrNotFoundResult && result0 == nil   [C18]
-//@   ensures !in_removed(ledger.finalityItems, key) && old(has(ledger.finalityItems.gotItems, key)) ==> result1 == nil && result0 == old(ledger.finalityItems.gotItems[key])   [C18]
+//@   ensures !old(has(ledger.finalityItems.updatedItems, key)) && !in_removed(ledger.finalityItems, key) && old(has(ledger.finalityItems.gotItems, key)) ==> result1 == nil && result0 == old(ledger.finalityItems.gotItems[key])   [C18]
 //@   ensures !in_removed(ledger.finalityItems, key) && !old(has(ledger.finalityItems.gotItems, key)) && result1 == nil ==>
 //@           fresh(result0) && itemenc[result0] == treeval[ledger.SimpleLedger.tree][bytesof(key)] && treehas[ledger.SimpleLedger.tree][bytesof(key)] &&
 //@           has(ledger.finalityItems.gotItems, key) && ledger.finalityItems.gotItems[key] == result0       [C18]
@@ -217,6 +219,7 @@ package ledger
 //@   ensures has(ledger.finalityItems.updatedItems, itemkey[item]) && ledger.finalityItems.updatedItems[itemkey[item]] == item   [C18]
 //@   ensures has(ledger.finalityItems.gotItems, itemkey[item]) && ledger.finalityItems.gotItems[itemkey[item]] == item           [C18]
 //@   ensures others_same(ledger.finalityItems, itemkey[item])                                               [C18]
+//@   ensures old(keyed(ledger.finalityItems)) ==> keyed(ledger.finalityItems)                               [C18]
 
 //@ func (ledger *FinalityLedger[T]) CancelSetFinality(key)
 //@   nopanic
@@ -224,6 +227,7 @@ package ledger
 //@   modifies mapof(ledger.finalityItems.gotItems), mapof(ledger.finalityItems.updatedItems)
 //@   ensures result == nil && !has(ledger.finalityItems.updatedItems, key) && !has(ledger.finalityItems.gotItems, key)   [C18]
 //@   ensures others_same(ledger.finalityItems, key)                                                         [C18]
+//@   ensures old(keyed(ledger.finalityItems)) ==> keyed(ledger.finalityItems)                               [C18]
 
 //@ func (ledger *FinalityLedger[T]) DelFinality(key)
 //@   nopanic
@@ -231,7 +235,7 @@ package ledger
 //@   modifies mapof(ledger.finalityItems.gotItems), mapof(ledger.finalityItems.updatedItems), ledger.finalityItems.removedKeys, elems(ledger.finalityItems.removedKeys),
 //@            mapof(ledger.SimpleLedger.cachedItems.gotItems), mapof(ledger.SimpleLedger.cachedItems.updatedItems), ledger.SimpleLedger.cachedItems.removedKeys, elems(ledger.SimpleLedger.cachedItems.removedKeys), itemkey, itemenc
 //@   allocates LedgerKeyList
-//@   ensures wf_final(ledger) && items_same() && others_same(ledger.finalityItems, key) && others_same(ledger.SimpleLedger.cachedItems, key)   [C18]
+//@   ensures wf_final(ledger) && items_same() && others_same(ledger.finalityItems, key) && others_same(ledger.SimpleLedger.cachedItems, key) && keyed(ledger.finalityItems) && keyed(ledger.SimpleLedger.cachedItems)   [C18]
 //@   ensures result1 == nil ==> result0 != nil && !has(ledger.finalityItems.gotItems, key) && !has(ledger.finalityItems.updatedItems, key) && in_removed(ledger.finalityItems, key)   [C18]
 //@   ensures result1 != nil ==> result0 == nil && removed_same(ledger.finalityItems) && (forall k :: has(ledger.finalityItems.updatedItems, k) == old(has(ledger.finalityItems.updatedItems, k)))   [C18]
 
@@ -245,7 +249,7 @@ package ledger
 
 //@ func (ledger *FinalityLedger[T]) Commit()
 //@   nopanic
-//@   requires wf_final(ledger) && keyed(ledger.finalityItems) && upd_in_got(ledger.finalityItems)
+//@   requires wf_final(ledger) && keyed(ledger.finalityItems)
 //@   modifies treehas, treeval, treever, histhas, histval,
 //@            ledger.SimpleLedger.cachedItems.gotItems, ledger.SimpleLedger.cachedItems.updatedItems, ledger.SimpleLedger.cachedItems.removedKeys,
 //@            ledger.finalityItems.updatedItems, ledger.finalityItems.removedKeys, mapof(ledger.finalityItems.gotItems)
